@@ -43,6 +43,7 @@ var c05classes = []c05class{
 	// the source directory itself contains a mount (a tmpfs on src/sub): binds are recursive, so the nested mount comes
 	// along — declared read-only, it must be read-only there too
 	{"bind-ro-dir-whose-source-contains-a-mount", "dir", false},
+	{"bind-ro-dir-whose-source-is-a-read-only-mount-and-contains-a-mount", "dir", false},
 	// a read-only bind whose target path runs through a writable bind in which an earlier program planted a symbolic
 	// link as an intermediate component (t/lnk -> a host directory): the table is refused or the mount is in place; in
 	// no case may the launcher create anything at the link's destination on the host
@@ -122,7 +123,7 @@ func init() {
 		}
 		spec := &mc.Spec{
 			Level: "exploration",
-			Rule: "every mount table of ≤ maxLen entries over 17 entry classes (bind ro/rw of directories and files, tmpfs, proc ro/rw, nested target, missing source with FilterNotExist, read-only bind whose source lies on a nosuid/noexec/nodev mount, read-only binds written by hand with only MS_BIND|MS_RDONLY, read-only binds onto a symbolic link planted inside a writable bind, a read-only bind whose source lies on a host mount with shared propagation below which the host mounts another file system once the sandbox is set up) × both implementations of the mount sequence (raw in-child via the namespace runner, in-container; the container also with a symlink and with masked file/directory paths, named directly or through a configured symbolic link, and in containers without /dev/null, with file and directory masks and with a directory mask alone); plus a mask on a file below a directory whose owner / group / mode range over ids mapped and not mapped into the container (6 kinds × 3 file owners × with and without a credential generator): Build refuses, or the program finds nothing of the host there; " +
+			Rule: "every mount table of ≤ maxLen entries over 18 entry classes (bind ro/rw of directories and files, tmpfs, proc ro/rw, nested target, missing source with FilterNotExist, read-only bind whose source lies on a nosuid/noexec/nodev mount, read-only binds written by hand with only MS_BIND|MS_RDONLY, read-only binds onto a symbolic link planted inside a writable bind, a read-only bind whose source lies on a host mount with shared propagation below which the host mounts another file system once the sandbox is set up) × both implementations of the mount sequence (raw in-child via the namespace runner, in-container; the container also with a symlink and with masked file/directory paths, named directly or through a configured symbolic link, and in containers without /dev/null, with file and directory masks and with a directory mask alone); plus a mask on a file below a directory whose owner / group / mode range over ids mapped and not mapped into the container (6 kinds × 3 file owners × with and without a credential generator): Build refuses, or the program finds nothing of the host there; " +
 				"a probe inside reports the root listing, read-only flags and the outcome of create / mkdir / open-for-write / truncate / chmod / rename / unlink on the root and in every mount, '..' from the root, the old root, and seven escape routes to a host canary file; the host side reads /proc/<pid>/mountinfo of the sandboxed process. Oracle: reference model of the table. " +
 				"non-trivial: the table is not empty; distinct = (implementation, table, observations)",
 			Bound:       map[string]any{"max_entries": maxLen, "escape_routes": 7},
@@ -229,14 +230,29 @@ func c05run(x *mc.X, impl string, classes []c05class) {
 			b.WithBind(src, e.target, true)
 			lateMounts = append(lateMounts, filepath.Join(src, "sub"))
 			lateTargets = append(lateTargets, "/"+e.target+"/sub")
-		case "bind-ro-dir-whose-source-contains-a-mount":
+		case "bind-ro-dir-whose-source-contains-a-mount", "bind-ro-dir-whose-source-is-a-read-only-mount-and-contains-a-mount":
 			mkSourceDir(src)
+			roSource := strings.Contains(e.class.name, "is-a-read-only-mount")
+			if roSource {
+				// the source is a mount of its own: "it is read-only already" is true of that mount, not of what is mounted below it
+				if err := syscall.Mount(src, src, "", syscall.MS_BIND, ""); err != nil {
+					x.Failf("C05/harness", "source mount: %v", err)
+					return
+				}
+				defer syscall.Unmount(src, syscall.MNT_DETACH)
+			}
 			if err := syscall.Mount("tmpfs", filepath.Join(src, "sub"), "tmpfs", 0, ""); err != nil {
 				x.Failf("C05/harness", "nested mount: %v", err)
 				return
 			}
 			nested := filepath.Join(src, "sub")
 			defer syscall.Unmount(nested, syscall.MNT_DETACH)
+			if roSource {
+				if err := syscall.Mount("", src, "", syscall.MS_BIND|syscall.MS_REMOUNT|syscall.MS_RDONLY, ""); err != nil {
+					x.Failf("C05/harness", "source remount: %v", err)
+					return
+				}
+			}
 			os.WriteFile(filepath.Join(nested, "inner"), []byte("inner"), 0666)
 			b.WithBind(src, e.target, true)
 			nestedTargets = append(nestedTargets, "/"+e.target+"/sub")
